@@ -357,14 +357,20 @@ Theorem C01_held_value_never_changes : forall zc evs i a m,
 Proof. exact held_copy_stable_lemma. Qed.
 Print Assumptions C01_held_value_never_changes.
 
-(* ... which, for the code as it is ([code_zc]), covers the *[]byte body, the plain codec's
-   *string and *[]byte cases, form values that needed unescaping, and the JSON / XML /
-   protobuf / thrift codecs ... *)
+(* ... which, for the code as it is ([code_zc], after the repair 46f1f9c), is EVERY destination
+   kind: the *[]byte body, the plain codec's *string, *[]byte, named string and named []byte
+   cases, form keys and values, the JSON / XML / protobuf / thrift codecs ... *)
 Theorem C01_copying_codecs_hold : forall evs i a m,
-  nth_error evs i = Some (a, m) -> In (rm_kind m) copying_kinds ->
+  nth_error evs i = Some (a, m) ->
   nth_error (views (rrun code_zc evs)) i = Some (rm_body m).
 Proof. exact code_copying_kinds_hold_lemma. Qed.
 Print Assumptions C01_copying_codecs_hold.
+
+(* ... so that after ANY sequence of reads the holders read exactly the bodies, in order ... *)
+Theorem C01_code_views_are_the_bodies : forall evs,
+  views (rrun code_zc evs) = map (fun ev => rm_body (snd ev)) evs.
+Proof. exact code_all_views_lemma. Qed.
+Print Assumptions C01_code_views_are_the_bodies.
 
 (* ... and every kind behind the gzip filter. *)
 Theorem C01_fresh_pipe_protects : forall zc evs i a m,
@@ -405,20 +411,21 @@ Theorem C01_plain_string_zero_copy_refuted :
 Proof. exact string_zc_leaks_lemma. Qed.
 Print Assumptions C01_plain_string_zero_copy_refuted.
 
-(* The code as it is decodes three kinds without copying (plain codec into a named string or
-   named []byte type: parseProperType; form codec values that need no unescaping): for each of
-   them the property fails - known findings plain-named-alias and form-alias. *)
+(* The code BEFORE 46f1f9c ([code_zc_prefix]) decoded three kinds without copying (plain codec
+   into a named string or named []byte type: parseProperType; form codec keys / values that need
+   no unescaping): for each of them the property failed - found by the retention scenario,
+   repaired in /repo 46f1f9c (known_findings.txt: fixed). *)
 Theorem C01_named_and_form_values_alias_buffer_refuted :
   forall k, In k [KPlainNamedString; KPlainNamedBytes; KFormValue] ->
   exists evs a m a2 m2,
     nth_error evs 0 = Some (a, m) /\ nth_error evs 1 = Some (a2, m2) /\
     rm_kind m = k /\ rm_fresh m = false /\ rm_body m <> rm_body m2 /\
-    nth_error (views (rrun code_zc evs)) 0 = Some (rm_body m2).
-Proof. exact code_zc_leaks_lemma. Qed.
+    nth_error (views (rrun code_zc_prefix evs)) 0 = Some (rm_body m2).
+Proof. exact code_zc_prefix_leaks_lemma. Qed.
 Print Assumptions C01_named_and_form_values_alias_buffer_refuted.
 
 (* Non-vacuity: a run in which the buffer IS reused and a copying decode holds its value. *)
 Example C01_example_copy_survives_reuse :
-  views (rrun code_zc (two_reads KPlainString)) = [str "AAAA-0000"; str "BBBB-0002"] /\
-  r_heap (rrun code_zc (two_reads KPlainString)) = [str "hBBBBB-0002"].
+  views (rrun code_zc (two_reads KPlainNamedString)) = [str "AAAA-0000"; str "BBBB-0002"] /\
+  r_heap (rrun code_zc (two_reads KPlainNamedString)) = [str "hBBBBB-0002"].
 Proof. split; vm_compute; reflexivity. Qed.
